@@ -2,25 +2,192 @@
 
 package verifsim
 
-// Gen: the seeded generator of actions. It may look at the reference model (never at
-// the UPF) to bias its choices; what it emits is an explicit, self-contained action.
+// Gen: the seeded generator of run configurations and actions (swarm style: every run
+// draws its own sizes, workload mix and enabled fault kinds). It may look at the
+// reference model (never at the UPF) to bias its choices; what it emits is an explicit,
+// self-contained action.
 
 import (
 	"math/rand/v2"
+	"sort"
 )
 
 type Gen struct {
-	s   *Sim
-	rng *rand.Rand
-	n   int
-	cp  uint64
+	s    *Sim
+	rng  *rand.Rand
+	n    int
+	cp   uint64
+	mode string // clean | wild
+	w    map[string]int
+	held []int
+	sent []int // action indexes of delivered datagrams (dup candidates)
+	rich bool
+	// per-profile toggles
+	perioOK   bool
+	dupCreate bool
+	canonical bool // canonical child order (FAR id first etc.)
+	slotGen   map[[2]int]int
+}
+
+func pick[T any](r *rand.Rand, xs ...T) T { return xs[r.IntN(len(xs))] }
+
+func profileConfig(p string, seed uint64) RunConfig {
+	r := rand.New(rand.NewPCG(seed, 0xc0f19))
+	c := RunConfig{Seed: seed, Profile: p, Driver: "gtp5g", Interpose: true, AutoFwd: true, AutoAnswer: true}
+	c.RetransMs = pick(r, 137, 311, 1009, 2003, 4999)
+	c.MaxRetrans = r.IntN(4)
+	c.NSMF = 1 + r.IntN(3)
+	c.NSlots = 1 + r.IntN(4)
+	c.Steps = 15 + r.IntN(70)
+	c.MapOrder = "seeded"
+	if r.IntN(10) == 0 {
+		c.MapOrder = "sorted"
+	}
+	c.LogLevel = "error"
+	if r.IntN(12) == 0 {
+		c.LogLevel = pick(r, "warn", "info", "debug", "trace")
+	}
+	c.Oracles = []string{p}
+	switch p {
+	case "C01":
+		c.AutoAnswer = false
+		if r.IntN(3) > 0 {
+			c.Faults = append(c.Faults, "dp")
+		}
+	case "C04":
+		c.AutoAnswer = false
+		c.NSMF = 2 + r.IntN(2)
+	case "C05":
+		c.AutoAnswer = false
+		c.NSMF = 2 + r.IntN(3)
+		c.NSlots = 2 + r.IntN(3)
+	case "C06":
+		c.Faults = append(c.Faults, "n4")
+	case "C07":
+		if r.IntN(2) == 0 {
+			c.Driver = "empty"
+		}
+	case "C08":
+		c.NSMF = 2 + r.IntN(3)
+		if r.IntN(2) == 0 {
+			c.Faults = append(c.Faults, "n4")
+		}
+	case "C09":
+		c.AutoAnswer = false
+		c.Faults = append(c.Faults, "n4", "smf")
+		switch r.IntN(6) {
+		case 0:
+			c.TxSeqStart = 1<<24 - uint32(1+r.IntN(4))
+		case 1:
+			c.TxSeqStart = 1 << 24
+		case 2:
+			c.TxSeqStart = 1<<24 + uint32(1+r.IntN(1000))
+		case 3:
+			c.TxSeqStart = ^uint32(0) - uint32(r.IntN(4))
+		case 4:
+			c.TxSeqStart = r.Uint32()
+		}
+	case "C13", "C14":
+		if r.IntN(4) == 0 {
+			c.Faults = append(c.Faults, "gtpu")
+		}
+	case "C15":
+		c.NSlots = 2 + r.IntN(4)
+		c.Steps = 30 + r.IntN(80)
+	case "C17":
+		c.FinalStop = true
+		c.AutoAnswer = r.IntN(2) == 0
+	case "C18":
+		c.Interpose = false
+		c.KernLatency = pick(r, 1, 2, 5)
+		c.Knobs = map[string]int{"REPORT_CHANNEL_LEN": pick(r, 2, 4, 8, 128), "EVENT_CHANNEL_LEN": pick(r, 4, 8, 16, 512)}
+	}
+	return c
+}
+
+func (c *RunConfig) faultOn(k string) bool {
+	for _, f := range c.Faults {
+		if f == k {
+			return true
+		}
+	}
+	return false
 }
 
 func newGen(s *Sim) *Gen {
-	return &Gen{s: s, rng: rand.New(rand.NewPCG(s.cfg.Seed, 0x5eed)), cp: 0x100}
+	g := &Gen{s: s, rng: rand.New(rand.NewPCG(s.cfg.Seed, 0x5eed)), cp: 0x100, mode: "clean", w: map[string]int{}, slotGen: map[[2]int]int{}}
+	p := s.cfg.Profile
+	// default workload mix
+	g.w = map[string]int{"hb": 2, "assoc": 1, "est": 8, "mod": 12, "del": 4, "adv": 4}
+	switch p {
+	case "C01":
+		g.mode = "wild"
+		g.perioOK = true
+		g.dupCreate = true
+		g.w["reassoc"] = 2
+		g.w["krep"] = 2
+		g.w["ansseid0"] = 2
+		g.w["takeover"] = 1
+		if s.cfg.faultOn("dp") {
+			g.w["fault"] = 6
+		}
+		g.w["ans"] = 3
+	case "C02", "C03":
+		g.rich = true
+		g.w["mod"] = 20
+		if s.cfg.Seed%4 == 0 {
+			g.w["fault"] = 2
+		}
+		g.perioOK = p == "C03"
+	case "C04":
+		g.w = map[string]int{"hb": 1, "assoc": 1, "est": 10, "mod": 4, "del": 8, "reassoc": 3, "probe": 10, "krep": 3, "ansseid0": 3, "adv": 1}
+	case "C05":
+		g.w = map[string]int{"hb": 1, "est": 10, "mod": 12, "del": 5, "reassoc": 3, "krep": 4, "kbuf": 4, "ansseid0": 3, "takeover": 1, "adv": 1}
+		g.w["ans"] = 2
+	case "C06":
+		g.w = map[string]int{"hb": 6, "assoc": 2, "est": 6, "mod": 8, "del": 3, "other": 3, "dup": 14, "hold": 4, "deliver": 5, "adv": 8, "advwin": 4, "sameseq": 6}
+	case "C08":
+		g.w = map[string]int{"hb": 4, "assoc": 2, "reassoc": 1, "est": 8, "mod": 8, "del": 3, "adv": 3, "advbig": 2, "badest": 5, "probe": 4, "other": 2, "unknownpeer": 2}
+		g.perioOK = false
+	case "C09":
+		g.w = map[string]int{"hb": 1, "est": 5, "mod": 2, "krep": 12, "kbufnocp": 5, "ans": 12, "adv": 8, "advrt": 8, "del": 1}
+	case "C10", "C11", "C12":
+		g.w = map[string]int{"hb": 1, "est": 6, "mod": 16, "del": 3, "krep": 8, "adv": 3, "reassoc": 1}
+		g.perioOK = true
+		if p == "C10" {
+			g.w["krepbad"] = 3
+			g.w["takeover"] = 1
+		}
+	case "C13", "C14":
+		g.canonical = true
+		g.w = map[string]int{"est": 5, "kbuf": 14, "kbufburst": 2, "kbufbad": 2, "farflip": 12, "mod": 3, "del": 2, "rmpdr": 2, "adv": 1, "reest": 3}
+		if s.cfg.faultOn("gtpu") {
+			g.w["gtpuerr"] = 2
+		}
+	case "C15":
+		g.perioOK = true
+		g.w = map[string]int{"est": 6, "modurr": 10, "del": 3, "adv": 10, "advp": 10, "reassoc": 1}
+	case "C17":
+		g.mode = "clean"
+		g.perioOK = true
+		g.w = map[string]int{"hb": 2, "est": 6, "mod": 8, "del": 2, "dup": 3, "krep": 6, "kbuf": 4, "adv": 5, "ans": 3}
+	case "C18":
+		g.perioOK = true
+		g.w = map[string]int{"est": 10, "mod": 2, "adv": 6, "krepburst": 4, "reassoc": 3, "del": 2, "hb": 1}
+	case "C07":
+		g.mode = "wild"
+		g.perioOK = true
+		g.w = map[string]int{"hb": 2, "est": 6, "mod": 6, "del": 2, "raw": 24, "adv": 2, "krep": 2, "kbuf": 2, "reassoc": 1}
+	}
+	return g
 }
 
-func (g *Gen) intn(n int) int { return g.rng.IntN(n) }
+func (g *Gen) intn(n int) int {
+	if n <= 0 {
+		return 0
+	}
+	return g.rng.IntN(n)
+}
 func (g *Gen) chance(p float64) bool { return g.rng.Float64() < p }
 
 func (g *Gen) seq(m *SMF) uint32 {
@@ -33,31 +200,726 @@ func u8p(v uint8) *uint8    { return &v }
 func u16p(v uint16) *uint16 { return &v }
 func u32p(v uint32) *uint32 { return &v }
 
-func (g *Gen) simpleRules() []RuleIntent {
-	far := RuleIntent{Kind: "far", ID: 1, Action: u16p(2), ActionLen: 1}
-	pdr := RuleIntent{Kind: "pdr", ID: 1, Prec: u32p(100), SrcIf: u8p(1), FARID: u32p(1)}
-	return []RuleIntent{far, pdr}
+// bv: a boundary-biased value of the given width.
+func (g *Gen) bv(bits uint) uint64 {
+	max := uint64(1)<<bits - 1
+	if bits >= 64 {
+		max = ^uint64(0)
+	}
+	switch g.intn(9) {
+	case 0:
+		return 0
+	case 1:
+		return 1
+	case 2:
+		return max
+	case 3:
+		return max - 1
+	case 4:
+		k := uint(g.intn(int(bits)))
+		return (uint64(1) << k) & max
+	case 5:
+		k := uint(1 + g.intn(int(bits)-1))
+		return ((uint64(1) << k) - 1) & max
+	case 6:
+		k := uint(1 + g.intn(int(bits)-1))
+		return ((uint64(1) << k) + 1) & max
+	}
+	return g.rng.Uint64() & max
 }
+
+func (g *Gen) ip4() [4]byte {
+	return [4]byte{byte(1 + g.intn(223)), byte(g.intn(256)), byte(g.intn(256)), byte(1 + g.intn(254))}
+}
+
+func (g *Gen) net4() Net4 {
+	switch g.intn(5) {
+	case 0:
+		return Net4{Kind: "any"}
+	case 1:
+		return Net4{Kind: "assigned"}
+	case 2:
+		return Net4{Kind: "host", IP: g.ip4()}
+	}
+	return Net4{Kind: "cidr", IP: g.ip4(), Bits: g.intn(33)}
+}
+
+func (g *Gen) ports() [][2]uint16 {
+	n := g.intn(4)
+	if g.chance(0.4) {
+		n = 0
+	}
+	var out [][2]uint16
+	for i := 0; i < n; i++ {
+		lo := uint16(g.bv(16))
+		if g.chance(0.5) {
+			out = append(out, [2]uint16{lo, lo})
+		} else {
+			hi := uint16(g.bv(16))
+			if hi == lo {
+				hi = lo + 1
+			}
+			out = append(out, [2]uint16{lo, hi})
+		}
+	}
+	return out
+}
+
+func (g *Gen) flowDesc() *FlowDescIntent {
+	f := &FlowDescIntent{Out: g.chance(0.5), Proto: g.intn(256), Src: g.net4(), Dst: g.net4(), Spaces: g.intn(3)}
+	if g.chance(0.3) {
+		f.Proto = -1
+	}
+	f.SrcPorts = g.ports()
+	f.DstPorts = g.ports()
+	return f
+}
+
+func (g *Gen) perm(n int) []int {
+	if g.canonical || !g.chance(0.5) {
+		return nil
+	}
+	return g.rng.Perm(n)
+}
+
+var idRange = map[string]int{"pdr": 4, "far": 3, "qer": 2, "urr": 3, "bar": 2}
+
+func (g *Gen) someIDs(kind string, max int) []uint32 {
+	n := g.intn(max + 1)
+	var out []uint32
+	seen := map[uint32]bool{}
+	for i := 0; i < n; i++ {
+		id := uint32(1 + g.intn(idRange[kind]))
+		if seen[id] {
+			continue
+		}
+		seen[id] = true
+		out = append(out, id)
+	}
+	return out
+}
+
+// rule generates the content of one rule.
+func (g *Gen) rule(kind string, id uint32, update bool) RuleIntent {
+	r := RuleIntent{Kind: kind, ID: id}
+	opt := func() bool { return !update && g.chance(0.8) || update && g.chance(0.45) }
+	switch kind {
+	case "pdr":
+		if opt() {
+			r.Prec = u32p(uint32(g.bv(32)))
+		}
+		if !update || g.chance(0.5) {
+			r.SrcIf = u8p(uint8(pick(g.rng, 0, 1, 0, 1, 2, 3)))
+			if g.rich || g.chance(0.3) {
+				if g.chance(0.5) {
+					r.FTEID = u32p(uint32(g.bv(32)))
+					r.FTEIDIP = g.ip4()
+				}
+				if g.chance(0.6) {
+					ip := g.ip4()
+					r.UEIP = &ip
+				}
+				if g.chance(0.3) {
+					r.NetIns = "internet"
+				}
+				ns := 0
+				if g.rich {
+					ns = g.intn(4)
+				} else if g.chance(0.3) {
+					ns = 1
+				}
+				for i := 0; i < ns; i++ {
+					sdf := SDFIntent{}
+					if g.chance(0.85) {
+						sdf.FD = g.flowDesc()
+					}
+					sdf.TTC = g.chance(0.15)
+					sdf.SPI = g.chance(0.15)
+					sdf.FL = g.chance(0.15)
+					if g.chance(0.4) {
+						sdf.BID = u32p(uint32(g.bv(32)))
+					}
+					r.SDFs = append(r.SDFs, sdf)
+				}
+				n := 0
+				if r.SrcIf != nil {
+					n++
+				}
+				if r.FTEID != nil {
+					n++
+				}
+				if r.NetIns != "" {
+					n++
+				}
+				if r.UEIP != nil {
+					n++
+				}
+				r.PDIOrd = g.perm(n + len(r.SDFs))
+			}
+		} else {
+			r.NoPDI = true
+		}
+		if opt() {
+			r.OHR = u8p(uint8(g.intn(6)))
+		}
+		if opt() {
+			r.FARID = u32p(uint32(1 + g.intn(idRange["far"])))
+		}
+		if !update || g.chance(0.5) {
+			r.QERIDs = g.someIDs("qer", 2)
+			r.URRIDs = g.someIDs("urr", 3)
+		}
+	case "far":
+		if opt() {
+			act := uint16(pick(g.rng, 1, 2, 4, 12, 2, 2, 6, 10, 16, 18))
+			r.ActionLen = 1
+			if g.rich && g.chance(0.5) {
+				act = uint16(g.bv(8))
+			}
+			if g.chance(0.3) {
+				r.ActionLen = 2
+				if g.rich {
+					act |= uint16(g.bv(8)) << 8
+				}
+			}
+			r.Action = &act
+		}
+		if opt() {
+			fp := &FPIntent{}
+			if g.chance(0.7) {
+				fp.DestIf = u8p(uint8(g.intn(4)))
+			}
+			if g.chance(0.2) {
+				fp.NetIns = "internet"
+			}
+			if g.chance(0.8) {
+				o := &OHCIntent{}
+				if g.chance(0.75) {
+					o.Desc = 0x0100
+					o.TEID = uint32(g.bv(32))
+					o.IP = g.ip4()
+				} else {
+					o.Desc = 0x0400
+					o.IP = g.ip4()
+					o.Port = uint16(g.bv(16))
+				}
+				fp.OHC = o
+			}
+			if g.chance(0.25) {
+				p := pick(g.rng, "p", "policy-1", "0123456789abcdef")
+				fp.Policy = &p
+			}
+			if g.chance(0.2) {
+				fp.SMReq = u8p(uint8(g.bv(8)))
+			}
+			r.FP = fp
+		}
+		if g.chance(0.3) {
+			r.BARID = u8p(uint8(1 + g.intn(idRange["bar"])))
+		}
+	case "qer":
+		if opt() {
+			r.Gate = u8p(uint8(g.intn(16)))
+		}
+		if opt() {
+			r.MBR = &[2]uint64{g.bv(40), g.bv(40)}
+		}
+		if g.chance(0.5) {
+			r.GBR = &[2]uint64{g.bv(40), g.bv(40)}
+		}
+		if opt() {
+			r.QFI = u8p(uint8(g.intn(64)))
+		}
+		if g.chance(0.4) {
+			r.RQI = u8p(uint8(g.intn(2)))
+		}
+		if g.chance(0.4) {
+			r.PPI = u8p(uint8(g.intn(8)))
+		}
+		if g.chance(0.4) {
+			r.CorrID = u32p(uint32(g.bv(32)))
+		}
+	case "urr":
+		if !update || g.chance(0.4) {
+			r.Method = u8p(uint8(1 + g.intn(7)))
+		}
+		if !update {
+			var t uint32
+			r.TrigLen = pick(g.rng, 2, 3)
+			if g.rich {
+				t = uint32(g.bv(24))
+			} else {
+				t = uint32(pick(g.rng, 0x2, 0x100, 0x102, 0x4, 0x202))
+			}
+			t &^= 1
+			if g.perioOK && g.chance(0.5) {
+				t |= 1
+				r.Period = u32p(uint32(pick(g.rng, 1, 2, 3, 5, 10)))
+			} else if g.chance(0.2) {
+				r.Period = u32p(uint32(pick(g.rng, 1, 7, 60)))
+			}
+			if r.TrigLen == 2 {
+				t &= 0xffff
+			}
+			r.Trigger = &t
+		}
+		if !update || g.chance(0.3) {
+			mi := uint8(0)
+			if g.chance(0.5) {
+				mi |= 0x10
+			}
+			if g.rich {
+				mi |= uint8(g.intn(16))
+			}
+			r.MInfo = &mi
+		}
+		if g.chance(0.5) {
+			r.VolTh = &VolIntent{Flags: uint8(g.intn(8)), Tot: g.bv(64), UL: g.bv(64), DL: g.bv(64)}
+		}
+		if g.chance(0.4) {
+			r.VolQu = &VolIntent{Flags: uint8(g.intn(8)), Tot: g.bv(64), UL: g.bv(64), DL: g.bv(64)}
+		}
+	case "bar":
+		if opt() {
+			r.Delay = u8p(uint8(g.bv(8)))
+		}
+		if opt() {
+			r.Count = u8p(uint8(g.bv(8)))
+		}
+	}
+	// child order
+	n := len(r.children(update))
+	r.Order = g.perm(n)
+	return r
+}
+
+var kinds = []string{"far", "qer", "urr", "bar", "pdr"}
+
+// liveOf returns the model's session behind a slot (nil if none).
+func (g *Gen) liveOf(m *SMF, slot int) *MSess {
+	sl := m.slot(slot)
+	if !sl.Known {
+		return nil
+	}
+	x := g.s.model.sess[sl.UP]
+	if x != nil && x.SMF == m.Idx && x.Slot == sl.Idx {
+		return x
+	}
+	return nil
+}
+
+func (g *Gen) anyLive() (*SMF, int, *MSess) {
+	var cands [][2]int
+	for _, m := range g.s.smfs {
+		for j := range m.Slots {
+			if g.liveOf(m, j) != nil {
+				cands = append(cands, [2]int{m.Idx, j})
+			}
+		}
+	}
+	if len(cands) == 0 {
+		return nil, 0, nil
+	}
+	c := cands[g.intn(len(cands))]
+	m := g.s.smfs[c[0]]
+	return m, c[1], g.liveOf(m, c[1])
+}
+
+func sortedRefs(m map[RuleRef]bool, kind string) []uint32 {
+	var out []uint32
+	for r, ok := range m {
+		if ok && r.Kind == kind {
+			out = append(out, r.ID)
+		}
+	}
+	sort.Slice(out, func(i, j int) bool { return out[i] < out[j] })
+	return out
+}
+
+func (g *Gen) estMsg(m *SMF, slot int) *MsgIntent {
+	g.cp++
+	cp := g.cp<<16 | uint64(m.Idx+1)
+	if g.s.cfg.Profile == "C05" || g.chance(0.3) {
+		// equal CP SEIDs across peers (never twice within one peer)
+		g.slotGen[[2]int{m.Idx, slot}]++
+		cp = uint64(0x10 + slot*64 + g.slotGen[[2]int{m.Idx, slot}]%64)
+	}
+	in := &MsgIntent{T: "est", Seq: g.seq(m), Slot: slot, CPSEID: cp}
+	for _, kind := range kinds {
+		n := 1 + g.intn(idRange[kind])
+		if kind == "bar" {
+			n = g.intn(2) // at most one Create BAR per message
+		}
+		if kind == "urr" && g.chance(0.2) {
+			n = 0
+		}
+		ids := g.rng.Perm(idRange[kind])
+		for i := 0; i < n; i++ {
+			in.Create = append(in.Create, g.rule(kind, uint32(1+ids[i]), false))
+		}
+	}
+	if g.mode == "wild" && g.chance(0.3) {
+		k := pick(g.rng, kinds...)
+		if k != "bar" {
+			in.Create = append(in.Create, g.rule(k, uint32(1+g.intn(idRange[k])), false))
+		}
+	}
+	return in
+}
+
+func (g *Gen) modMsg(m *SMF, slot int, x *MSess) *MsgIntent {
+	in := &MsgIntent{T: "mod", Seq: g.seq(m), Slot: slot}
+	used := map[RuleRef]bool{}
+	barCreate, barUpdate, barRemove := false, false, false
+	nops := 1 + g.intn(4)
+	for i := 0; i < nops; i++ {
+		kind := pick(g.rng, "far", "qer", "urr", "bar", "pdr", "pdr", "urr")
+		op := pick(g.rng, "create", "update", "update", "remove", "query")
+		if op == "query" {
+			kind = "urr"
+		}
+		var id uint32
+		if g.mode == "wild" || x == nil {
+			id = uint32(1 + g.intn(idRange[kind]))
+		} else {
+			have := sortedRefs(x.Req, kind)
+			switch op {
+			case "create":
+				var free []uint32
+				for c := 1; c <= idRange[kind]; c++ {
+					if !x.Req[RuleRef{kind, uint32(c)}] {
+						free = append(free, uint32(c))
+					}
+				}
+				if len(free) == 0 {
+					continue
+				}
+				id = free[g.intn(len(free))]
+			default:
+				if len(have) == 0 {
+					continue
+				}
+				id = have[g.intn(len(have))]
+			}
+		}
+		ref := RuleRef{kind, id}
+		if g.mode != "wild" && used[ref] {
+			continue
+		}
+		used[ref] = true
+		switch op {
+		case "create":
+			if kind == "bar" {
+				if barCreate {
+					continue
+				}
+				barCreate = true
+			}
+			in.Create = append(in.Create, g.rule(kind, id, false))
+		case "update":
+			if kind == "bar" {
+				if barUpdate {
+					continue
+				}
+				barUpdate = true
+			}
+			in.Update = append(in.Update, g.rule(kind, id, true))
+		case "remove":
+			if kind == "bar" {
+				if barRemove {
+					continue
+				}
+				barRemove = true
+			}
+			in.Remove = append(in.Remove, ref)
+		case "query":
+			in.Query = append(in.Query, id)
+		}
+	}
+	return in
+}
+
+func (g *Gen) weighted() string {
+	total := 0
+	keys := make([]string, 0, len(g.w))
+	for k, v := range g.w {
+		if v > 0 {
+			keys = append(keys, k)
+			total += v
+		}
+	}
+	sort.Strings(keys)
+	x := g.intn(total)
+	for _, k := range keys {
+		x -= g.w[k]
+		if x < 0 {
+			return k
+		}
+	}
+	return keys[0]
+}
+
+func (g *Gen) noteSent(a Action) Action {
+	idx := g.s.actNo
+	if a.Op == "send" || a.Op == "raw" {
+		if a.Net == "hold" {
+			g.held = append(g.held, idx)
+		} else if a.Net == "" {
+			g.sent = append(g.sent, idx)
+		}
+	}
+	return a
+}
+
+var seidProbes = []uint64{0, 1 << 62, 1<<63 - 1, 1 << 63, 1<<63 + 1, ^uint64(0), ^uint64(0) - 1, 1 << 32, 1<<32 + 1, 0xffff}
 
 func (g *Gen) next() (Action, bool) {
 	s := g.s
 	g.n++
-	if g.n <= s.cfg.NSMF {
+	if g.n <= len(s.smfs) {
 		m := s.smfs[g.n-1]
-		return Action{Op: "send", SMF: m.Idx, Msg: &MsgIntent{T: "assoc", Seq: g.seq(m)}}, true
+		return g.noteSent(Action{Op: "send", SMF: m.Idx, Msg: &MsgIntent{T: "assoc", Seq: g.seq(m)}}), true
 	}
-	m := s.smfs[g.intn(len(s.smfs))]
-	switch g.intn(6) {
-	case 0:
-		return Action{Op: "send", SMF: m.Idx, Msg: &MsgIntent{T: "hb", Seq: g.seq(m)}}, true
-	case 1, 2:
-		g.cp++
-		return Action{Op: "send", SMF: m.Idx, Msg: &MsgIntent{T: "est", Seq: g.seq(m), Slot: g.intn(s.cfg.NSlots), CPSEID: g.cp, Create: g.simpleRules()}}, true
-	case 3:
-		return Action{Op: "send", SMF: m.Idx, Msg: &MsgIntent{T: "del", Seq: g.seq(m), Slot: g.intn(s.cfg.NSlots)}}, true
-	case 4:
-		return Action{Op: "adv", Ms: int64(1 + g.intn(3000))}, true
-	default:
-		return Action{Op: "send", SMF: m.Idx, Msg: &MsgIntent{T: "mod", Seq: g.seq(m), Slot: g.intn(s.cfg.NSlots)}}, true
+	for tries := 0; tries < 20; tries++ {
+		if a, ok := g.one(); ok {
+			return g.noteSent(a), true
+		}
 	}
+	m := s.smfs[0]
+	return g.noteSent(Action{Op: "send", SMF: 0, Msg: &MsgIntent{T: "hb", Seq: g.seq(m)}}), true
 }
+
+func (g *Gen) one() (Action, bool) {
+	s := g.s
+	m := s.smfs[g.intn(len(s.smfs))]
+	slot := g.intn(s.cfg.NSlots)
+	W := s.model.window().Milliseconds()
+	RT := int64(s.cfg.RetransMs)
+	switch g.weighted() {
+	case "hb":
+		return Action{Op: "send", SMF: m.Idx, Msg: &MsgIntent{T: "hb", Seq: g.seq(m)}}, true
+	case "assoc", "reassoc":
+		return Action{Op: "send", SMF: m.Idx, Msg: &MsgIntent{T: "assoc", Seq: g.seq(m)}}, true
+	case "est":
+		if g.liveOf(m, slot) != nil && g.chance(0.7) {
+			return Action{}, false
+		}
+		return Action{Op: "send", SMF: m.Idx, Msg: g.estMsg(m, slot)}, true
+	case "reest":
+		mm, sl, x := g.anyLive()
+		if x == nil {
+			return Action{}, false
+		}
+		_ = sl
+		return Action{Op: "send", SMF: mm.Idx, Msg: &MsgIntent{T: "del", Seq: g.seq(mm), Slot: sl}}, true
+	case "mod":
+		x := g.liveOf(m, slot)
+		if x == nil && (g.mode != "wild" || g.chance(0.8)) {
+			mm, sl, xx := g.anyLive()
+			if xx == nil {
+				return Action{}, false
+			}
+			m, slot, x = mm, sl, xx
+		}
+		return Action{Op: "send", SMF: m.Idx, Msg: g.modMsg(m, slot, x)}, true
+	case "del":
+		x := g.liveOf(m, slot)
+		if x == nil && g.chance(0.8) {
+			mm, sl, xx := g.anyLive()
+			if xx == nil {
+				return Action{}, false
+			}
+			m, slot = mm, sl
+		}
+		return Action{Op: "send", SMF: m.Idx, Msg: &MsgIntent{T: "del", Seq: g.seq(m), Slot: slot}}, true
+	case "takeover":
+		mm, sl, x := g.anyLive()
+		if x == nil {
+			return Action{}, false
+		}
+		in := &MsgIntent{T: "mod", Seq: g.seq(mm), Slot: sl, NodeID: "10.1.1." + string(rune('1'+g.intn(8)))}
+		if _, taken := s.model.nodes[in.NodeID]; taken {
+			return Action{}, false
+		}
+		return Action{Op: "send", SMF: mm.Idx, Msg: in}, true
+	case "probe":
+		in := &MsgIntent{T: pick(g.rng, "mod", "del"), Seq: g.seq(m), Slot: slot}
+		var v uint64
+		switch g.intn(5) {
+		case 0:
+			v = seidProbes[g.intn(len(seidProbes))]
+		case 1:
+			v = uint64(s.srvSlots() + 1 + g.intn(3))
+		case 2:
+			if len(s.model.ended) > 0 {
+				v = s.model.ended[g.intn(len(s.model.ended))].UP
+			}
+		case 3:
+			v = g.rng.Uint64()
+		default:
+			v = uint64(1 + g.intn(8))
+		}
+		in.SEID = &v
+		if in.T == "mod" && g.chance(0.5) {
+			in.Create = append(in.Create, g.rule("far", 1, false))
+		}
+		return Action{Op: "send", SMF: m.Idx, Msg: in}, true
+	case "badest":
+		in := g.estMsg(m, slot)
+		switch g.intn(3) {
+		case 0:
+			in.NodeID = "-"
+		case 1:
+			in.NoFSEID = true
+		default:
+			in.NodeID = "10.7.7.7" // never associated
+		}
+		return Action{Op: "send", SMF: m.Idx, Msg: in}, true
+	case "unknownpeer":
+		in := &MsgIntent{T: pick(g.rng, "hb", "mod", "del"), Seq: uint32(1 + g.intn(50)), Slot: slot}
+		return Action{Op: "send", SMF: m.Idx, Msg: in, From: "10.8.8.8:8805"}, true
+	case "other":
+		t := uint8(pick(g.rng, mtPFDMgmtReq, mtAssocUpdateReq, mtAssocRelReq, mtNodeReportReq, mtSessSetDelReq))
+		return Action{Op: "send", SMF: m.Idx, Msg: &MsgIntent{T: "other", MsgType: t, Seq: g.seq(m)}}, true
+	case "sameseq":
+		// another peer uses a sequence number this peer used recently
+		if len(s.smfs) < 2 || len(g.sent) == 0 {
+			return Action{}, false
+		}
+		ref := g.sent[len(g.sent)-1-g.intn(min(3, len(g.sent)))]
+		dg := s.dgs[ref]
+		if dg == nil || dg.Intent == nil {
+			return Action{}, false
+		}
+		other := s.smfs[(dg.SMF+1)%len(s.smfs)]
+		return Action{Op: "send", SMF: other.Idx, Msg: &MsgIntent{T: pick(g.rng, "hb", "assoc"), Seq: dg.Intent.Seq}}, true
+	case "dup":
+		if len(g.sent) == 0 {
+			return Action{}, false
+		}
+		k := len(g.sent) - 1 - g.intn(min(6, len(g.sent)))
+		return Action{Op: "dup", Ref: g.sent[k]}, true
+	case "hold":
+		a, ok := g.heldSend(m, slot)
+		return a, ok
+	case "deliver":
+		if len(g.held) == 0 {
+			return Action{}, false
+		}
+		k := g.intn(len(g.held))
+		ref := g.held[k]
+		g.held = append(g.held[:k], g.held[k+1:]...)
+		g.sent = append(g.sent, ref)
+		return Action{Op: "deliver", Ref: ref}, true
+	case "adv":
+		return Action{Op: "adv", Ms: int64(1 + g.intn(1500))}, true
+	case "advbig":
+		return Action{Op: "adv", Ms: int64(3600000 * (1 + g.intn(5)))}, true
+	case "advwin":
+		// clearly inside or clearly after the retention window
+		if g.chance(0.5) {
+			return Action{Op: "adv", Ms: W + 5 + int64(g.intn(50))}, true
+		}
+		return Action{Op: "adv", Ms: max64(1, W/2-5)}, true
+	case "advrt":
+		return Action{Op: "adv", Ms: RT + int64(g.intn(20))}, true
+	case "advp":
+		return Action{Op: "adv", Ms: int64(pick(g.rng, 1000, 2000, 3000, 5000, 10000, 500, 30000))}, true
+	case "fault":
+		f := &FaultSpec{Op: pick(g.rng, "add-create", "add-create", "add-update", "report", "multi", "get", "any"), Skip: g.intn(6),
+			Errno: pick(g.rng, 17, 2, 12, 16, 22), Late: g.chance(0.35)}
+		if g.chance(0.5) {
+			f.Kind = pick(g.rng, kinds...)
+		}
+		if f.Op == "report" || f.Op == "multi" {
+			f.Kind = ""
+			f.Late = false
+		}
+		return Action{Op: "fault", Fault: f}, true
+	case "krep", "krepbad", "krepburst":
+		return g.krep()
+	case "kbuf", "kbufburst", "kbufbad", "kbufnocp":
+		return g.kbuf()
+	case "ans":
+		return Action{Op: "ans", Ans: &AnsIntent{Idx: g.intn(4), Mode: pick(g.rng, "ok", "ok", "ok", "wrongpeer", "wrongseq", "seid0")}}, true
+	case "ansseid0":
+		return Action{Op: "ans", Ans: &AnsIntent{Idx: g.intn(4), Mode: "seid0"}}, true
+	case "gtpuerr":
+		return Action{Op: "gtpuerr", N: 1 + g.intn(2)}, true
+	}
+	return g.special()
+}
+
+func max64(a, b int64) int64 {
+	if a > b {
+		return a
+	}
+	return b
+}
+
+func (s *Sim) srvSlots() int { return s.srv.VerifState().Slots }
+
+func (g *Gen) heldSend(m *SMF, slot int) (Action, bool) {
+	in := &MsgIntent{T: pick(g.rng, "hb", "hb", "mod", "del"), Seq: g.seq(m), Slot: slot}
+	return Action{Op: "send", SMF: m.Idx, Msg: in, Net: pick(g.rng, "hold", "hold", "drop")}, true
+}
+
+func (g *Gen) krep() (Action, bool) {
+	n := 1 + g.intn(3)
+	var items []KRepItem
+	for i := 0; i < n; i++ {
+		m, sl, x := g.anyLive()
+		if x == nil {
+			return Action{}, false
+		}
+		urrs := sortedRefs(x.Req, "urr")
+		it := KRepItem{SMF: m.Idx, Slot: sl}
+		if len(urrs) > 0 && g.chance(0.85) {
+			it.URR = urrs[g.intn(len(urrs))]
+		} else {
+			it.URR = uint32(1 + g.intn(5))
+		}
+		bit := g.intn(18)
+		if bit == 0 || bit == 16 {
+			bit = 1
+		}
+		it.Cause = 1 << uint(bit)
+		if g.chance(0.1) {
+			it.Slot = -1
+			it.SEID = pick(g.rng, uint64(0), 99, 1<<40)
+			if len(g.s.model.ended) > 0 && g.chance(0.5) {
+				it.SEID = g.s.model.ended[g.intn(len(g.s.model.ended))].UP
+			}
+		}
+		items = append(items, it)
+	}
+	return Action{Op: "krep", KRep: items}, true
+}
+
+func (g *Gen) kbuf() (Action, bool) {
+	m, sl, x := g.anyLive()
+	if x == nil {
+		return Action{}, false
+	}
+	pdrs := sortedRefs(x.Req, "pdr")
+	k := &KBufIntent{SMF: m.Idx, Slot: sl, Action: uint16(pick(g.rng, 4, 12, 12, 4)), Len: 8 + g.intn(pick(g.rng, 8, 64, 1400)), Count: 1}
+	if len(pdrs) > 0 && g.chance(0.9) {
+		k.PDR = uint16(pdrs[g.intn(len(pdrs))])
+	} else {
+		k.PDR = uint16(1 + g.intn(6))
+	}
+	if g.chance(0.08) {
+		k.Slot = -1
+		k.SEID = pick(g.rng, uint64(0), 77, 1<<33)
+		if len(g.s.model.ended) > 0 {
+			k.SEID = g.s.model.ended[g.intn(len(g.s.model.ended))].UP
+		}
+	}
+	if g.chance(0.25) {
+		k.Count = 2 + g.intn(5)
+	}
+	return Action{Op: "kbuf", KBuf: k}, true
+}
+
+// special: profile-specific actions defined next to their oracles.
+func (g *Gen) special() (Action, bool) { return Action{}, false }
